@@ -7,7 +7,9 @@ from fractions import Fraction
 from common import *
 
 RULE = ("configs drawn from one PRNG: Linear (1-7 dims, 1-3 units, monotonicities in {-1,0,1}, acyclic "
-        "monotonic/range dominance graphs, input ranges, norm order in {None,1,2,inf}) and Categorical "
+        "monotonic/range dominance graphs, input ranges — positive on the range-dominance dimensions, and on the "
+        "dimensions OUTSIDE every range dominance positive / zero (input_min == input_max) / one-sided / absent in "
+        "any mixture —, norm order in {None,1,2,inf}) and Categorical "
         "(2-8 buckets, acyclic pair graphs: chains, diamonds, forests, shared parents, duplicate pairs; bounds "
         "none/min/max/both); kernels dyadic/int(ties)/wide/tiny/huge/feasible. Non-trivial = the projection "
         "moved the kernel or the kernel was feasible by construction; distinct = distinct (layer, config "
@@ -116,6 +118,21 @@ def run_linear(ctx, ncases):
               a = Fraction(rng.randint(-8, 8), 2)
               lo[i], hi[i] = a, a + Fraction(rng.randint(1, 12), 4)
         rd += ps
+    # dimensions OUTSIDE every range dominance: any accepted bound combination, in particular an EMPTY input
+    # range input_min == input_max (the scaling `upper - lower` of such a dimension is 0: F-C06-a), one-sided
+    # and absent bounds, mixed freely (input_min > input_max is rejected at construction: C16)
+    rdims = {i for p in rd for i in p}
+    zero_outside = 0
+    for i in range(n):
+      if i in rdims:
+        continue
+      r = rng.random()
+      if r < 0.3:
+        a = Fraction(rng.randint(-8, 8), 2)
+        lo[i], hi[i] = a, a
+        zero_outside += 1
+      elif r < 0.4:
+        lo[i], hi[i] = rng.choice([(None, None), (Fraction(rng.randint(-4, 4)), None), (None, Fraction(rng.randint(-4, 4)))])
     ord_ = rng.choice([None, None, 1, 2, "inf"])
     kind, w = gen_kernel(rng, n, units)
     if rng.random() < 0.15:
@@ -125,6 +142,9 @@ def run_linear(ctx, ncases):
                input_min=lo if any(v is not None for v in lo) else None,
                input_max=hi if any(v is not None for v in hi) else None,
                normalization_order=ord_)
+    if rd:
+      ctx.count("lin:rd:outside_dims_zero_range:%d" % min(zero_outside, 2))
+      ctx.count("lin:rd:outside_dims:%d" % min(n - len(rdims), 2))
     cases.append((cfg, kind, w, units, n))
   for cfg, kind, w, units, n in cases:
     kw = dict(cfg)
@@ -135,9 +155,12 @@ def run_linear(ctx, ncases):
     cons = linear_layer.LinearConstraints(**kw)
     wf = np.array([[float(v) for v in row] for row in w], dtype=np.float64)
     if kind == "feasible":
-      wf = cons(tf.constant(wf)).numpy()
-      wf = cons(tf.constant(wf)).numpy()
-      w = [[Fraction(float(v)) for v in row] for row in wf]
+      wf2 = cons(tf.constant(cons(tf.constant(wf)).numpy())).numpy()
+      if np.all(np.isfinite(wf2)):
+        wf = wf2
+        w = [[Fraction(float(v)) for v in row] for row in wf]
+      else:
+        kind = "nonfinite-projection"   # the projection below returns it again: oracle clause `finite`
     try:
       out = cons(tf.constant(wf, dtype=tf.float64)).numpy()
       err = None
@@ -206,9 +229,17 @@ def check_linear(ctx, item, replies):
       ctx.fail("monotonic_dominance", key, case, out, "dominant %d weak %d" % (d, k))
   if cfg["range_dominances"]:
     sc = [(-1.0 if m == -1 else 1.0) for m in cfg["monotonicities"]]
-    for i in range(n):
-      if cfg["input_min"][i] is not None and cfg["input_max"][i] is not None:
-        sc[i] *= float(cfg["input_max"][i] - cfg["input_min"][i])
+    for i in {i for p in cfg["range_dominances"] for i in p}:
+      sc[i] *= float(cfg["input_max"][i] - cfg["input_min"][i])
+    # inputs outside the range dominances (and the monotonic dominances) are only sign-clipped and normalised
+    if cfg["normalization_order"] is None:
+      touched = {i for p in (cfg["range_dominances"] or []) + (cfg["monotonic_dominances"] or []) for i in p}
+      for i in range(n):
+        if i not in touched:
+          m = cfg["monotonicities"][i]
+          want = np.maximum(wf[i], 0.0) if m == 1 else (np.minimum(wf[i], 0.0) if m == -1 else wf[i])
+          if np.any(out[i] != want):
+            ctx.fail("untouched", key, case, out, "dim %d outside every dominance changed: %r -> %r" % (i, wf[i], out[i]))
     rtol_ = tol * max(1.0, max(abs(s) for s in sc))
     for d, k in cfg["range_dominances"]:
       if np.min(sc[d] * out[d] - sc[k] * out[k]) < -rtol_:
@@ -244,9 +275,11 @@ def run_categorical(ctx, ncases):
         monotonicities=[tuple(p) for p in pairs] or None)
     wf = np.array([[float(v) for v in row] for row in w], dtype=np.float64)
     if rng.random() < 0.15:
-      kind = "feasible"
-      wf = cons(tf.constant(cons(tf.constant(wf)).numpy())).numpy()
-      w = [[Fraction(float(v)) for v in row] for row in wf]
+      wf2 = cons(tf.constant(cons(tf.constant(wf)).numpy())).numpy()
+      if np.all(np.isfinite(wf2)):
+        kind = "feasible"
+        wf = wf2
+        w = [[Fraction(float(v)) for v in row] for row in wf]
     try:
       out = cons(tf.constant(wf, dtype=tf.float64)).numpy()
       err = None
